@@ -74,6 +74,8 @@ type TokenReq struct {
 	BasicOK   bool
 	FormOK    bool
 	HonestOK  bool // answered 200 with an honest, valid body
+	Thread    int  // schedx: thread that sent the request (-1 outside the scheduler)
+	SchedStep int
 }
 
 type Issued struct {
@@ -104,6 +106,8 @@ type SimIdP struct {
 	Issued    map[string]*Issued
 	Mode      Answer
 	seq       int
+	// Tagger returns the calling thread and scheduler step (schedx).
+	Tagger func() (int, int)
 	// Hook is called at the start of RoundTrip (scheduling point / fault injection); an error is a transport error.
 	Hook func(req *http.Request) error
 }
@@ -169,7 +173,10 @@ func (p *SimIdP) RoundTrip(req *http.Request) (*http.Response, error) {
 	}
 	form, _ := url.ParseQuery(string(body))
 	tr := &TokenReq{Step: len(p.TokenReqs), Grant: form.Get("grant_type"), Form: form, Header: req.Header.Clone(), URL: req.URL.String(),
-		Login: -1, AnswerTag: mode.Name}
+		Login: -1, AnswerTag: mode.Name, Thread: -1}
+	if p.Tagger != nil {
+		tr.Thread, tr.SchedStep = p.Tagger()
+	}
 	p.TokenReqs = append(p.TokenReqs, tr)
 
 	status, respBody := p.process(tr, mode)
